@@ -520,7 +520,7 @@ def run_check(plugin, tier=None, replay=None):
 
     for i in monf[:8]:
         report_monitor(i)
-        if len(violations) >= 3:
+        if len(violations) >= 2:
             break
 
     only_mism = [i for i in mism if i not in set(monf)]
